@@ -12,7 +12,7 @@ Proof. destruct b; reflexivity. Qed.
 Lemma lua_version_from vs d0 errs b :
   has b (fst (fold_left (fun acc v => match bits v with
                           | Some d => (dor (fst acc) d, snd acc)
-                          | None => (fst acc, (snd acc ++ [v])%list)
+                          | None => (fst acc, (snd acc ++ [v]))
                           end) vs (d0, errs)))
   = has b d0 || existsb (has_v b) vs.
 Proof.
@@ -57,8 +57,8 @@ Proof.
   assert (H : forall d0 errs,
     snd (fold_left (fun acc v => match bits v with
                           | Some d => (dor (fst acc) d, snd acc)
-                          | None => (fst acc, (snd acc ++ [v])%list)
-                          end) vs (d0, errs)) = (errs ++ filter (fun v => negb (known v)) vs)%list).
+                          | None => (fst acc, (snd acc ++ [v]))
+                          end) vs (d0, errs)) = errs ++ filter (fun v => negb (known v)) vs).
   { induction vs as [|v vs IH]; intros d0 errs; cbn [fold_left filter].
     - rewrite app_nil_r. reflexivity.
     - unfold known at 1. destruct (bits v); cbn [fst snd negb]; rewrite IH.
